@@ -280,6 +280,8 @@ def exec_for(ex, node, env):
   if spec is None:
     ex.unsupported(node, 'loop without invariant in the sidecar: for %s in %s'
                    % (ast.unparse(node.target), ast.unparse(node.iter)))
+  for ev in getattr(ex, 'iter_events', []):
+    ev.add('loop:' + ast.unparse(node.target))
   model = iteration_model(ex, it, node)
   modified = set(spec.modifies) if spec.modifies is not None else (
       assigned_names(node.body))
@@ -321,12 +323,35 @@ def exec_for(ex, node, env):
     head_names = set(visible_vars(env))
     ex.assign_target(node.target, elem, env, node)
     before = state_marks(ex, env)
+    events = set()
+    if not hasattr(ex, 'iter_events'):
+      ex.iter_events = []
+    ex.iter_events.append(events)
+    normal = True
     try:
-      ex.exec_block(node.body, env)
-    except ContinueSig:
-      pass
-    except BreakSig:
-      return
+      try:
+        ex.exec_block(node.body, env)
+      except ContinueSig:
+        normal = False
+      except BreakSig:
+        if spec.no_break:
+          ctx.cur_line = line
+          ctx.oblige(z3.BoolVal(False), 'C03 the enumeration is not left '
+                     'early (no break)', 'flow', spec.props_flow)
+        return
+    finally:
+      ex.iter_events.pop()
+    if normal:
+      ctx.cur_line = line
+      if spec.must_call:
+        ctx.oblige(z3.BoolVal(('call:' + spec.must_call) in events),
+                   'C03 an enumerated element that is not skipped reaches %s'
+                   % spec.must_call, 'flow', spec.props_flow)
+      if spec.must_iterate:
+        ctx.oblige(z3.BoolVal(('loop:' + spec.must_iterate) in events),
+                   'C03 an enumerated element that is not skipped is expanded '
+                   'by the loop over %s' % spec.must_iterate, 'flow',
+                   spec.props_flow)
     check_frame_of_loop(ex, env, before, modified, node)
     check_no_frozen_alias(ex, env, node, head_names)
     vis1 = z3.SetAdd(vis, model.to_term(elem)) if vis is not None else None
